@@ -398,7 +398,68 @@ pub fn run_grammar(rng: &mut Rng, m: usize) -> Vec<u8> {
 
 fn cost_pair_inner(rng: &mut Rng, n: usize, m: usize) -> (Vec<u8>, Vec<u8>, &'static str) {
     let m = m.max(1).min(n.max(1));
-    match rng.below(20) {
+    match rng.below(24) {
+        20 | 21 => {
+            // two long runs of one letter whose lengths differ by a little,
+            // each closed by its own letter: x^(k+d) y x^k z (and mirrored).
+            // The tail nearly overlaps the head at many offsets, which is
+            // what period / border computations have to get through; the
+            // haystack is made of the same runs and never matches
+            let d = rng.range(0, 6);
+            let k = (m.saturating_sub(d + 2) / 2).max(1);
+            let (x, y, z) = *rng.pick(&[(b'a', b'b', b'c'), (b'a', b'b', b'b'), (b'z', b' ', b'm'), (0u8, 1u8, 255u8)]);
+            let mut needle = vec![x; k + d];
+            needle.push(y);
+            needle.extend(std::iter::repeat(x).take(k));
+            needle.push(z);
+            if rng.chance(1, 2) {
+                needle.reverse();
+            }
+            let mut hay = vec![x; n];
+            let step = match rng.below(3) {
+                0 => k + 1,
+                1 => k + d + 1,
+                _ => k.max(2) - 1,
+            }
+            .max(1);
+            let mut i = rng.range(0, step);
+            while i < n {
+                hay[i] = y;
+                i += step;
+            }
+            (needle, hay, "x^(k+d) y x^k z in its own runs")
+        }
+        22 | 23 => {
+            // a short head, one long run, one closing byte; the haystack is a
+            // long stretch without any needle byte (credit for the adaptive
+            // prefilter) followed by the run byte alone: every position of
+            // that region is a candidate that fails only at the closing byte
+            let (head, run, close, fill): (&[u8], u8, u8, u8) = *rng.pick(&[
+                (&b"zz "[..], b'z', b'm', b'a'),
+                (&b"q"[..], b'z', b'Z', b'e'),
+                (&b""[..], b'a', b'b', b'x'),
+                (&b"ab"[..], b'a', b'c', b'.'),
+                (&b"\x00\x00\x01"[..], 0u8, 2u8, 0xffu8),
+            ]);
+            let l = m.saturating_sub(head.len() + 1).max(1);
+            let mut needle = head.to_vec();
+            needle.extend(std::iter::repeat(run).take(l));
+            needle.push(close);
+            if rng.chance(1, 3) {
+                needle.reverse();
+            }
+            let dense = match rng.below(3) {
+                0 => n / 9,
+                1 => n / 2,
+                _ => (7 * needle.len()).min(n),
+            };
+            let mut hay = vec![fill; n - dense];
+            hay.extend(std::iter::repeat(run).take(dense));
+            if rng.chance(1, 3) {
+                hay.reverse();
+            }
+            (needle, hay, "head run^L close after a candidate-free stretch")
+        }
         18 | 19 => {
             // candidates at least 8 bytes apart (the prefilter stays switched
             // on), each sharing a long prefix with the needle, none matching:
